@@ -1,8 +1,57 @@
 import BddVerif.Drive.Util
-/-! Driver for C07 — stub, to be written. -/
+import BddVerif.Core.ApplyCanon
+import BddVerif.Model.Substitute
+/-!
+Driver for C07. The model (`Model/Substitute.lean`) is re-run and compared with the observed outcome; the
+property's predicate is evaluated on the OBSERVED result, without the model: for valid operands over the
+same `n` variables and `x < n`, the result is a valid diagram whose truth table is
+`v ↦ f (v[x := g v])` on all `2ⁿ` valuations, it is canonical (when `f` is, or whenever a new diagram was
+built), and the outcome is not a panic.
+-/
 namespace B.Drive.C07
-open B B.Drive
+open B B.Drive B.Ren B.Ren.Subst
 
-def handle (key : String) (_ins _obs : List String) : Verdict := Verdict.bad ("key " ++ key)
+def maxTT : Nat := 12
+
+def showOutcome : Outcome Arr → String
+  | .ok r => showArr r
+  | .err _ => "err"
+  | .panic _ => "panic"
+
+def firstFail (xs : List (Option String)) : Option String := xs.findSome? id
+
+/-- brute-force support -/
+def mentions (A : Arr) (x : Nat) : Bool := (A.toList.drop 2).any (·.var == x)
+
+def handle (key : String) (ins obs : List String) : Verdict :=
+  match key, ins, obs with
+  | "C07.sub", [fs, gs, xs], [res] =>
+    match parseArr? fs, parseArr? gs, xs.toNat? with
+    | some f, some g, some x =>
+      let n := numVars f
+      let model := showOutcome (substitute f x g)
+      let valid := wfoB f n && wfoB g n && n + 1 < 65536
+      let path := if !mentions f x then "unchanged" else if !mentions g x then "safe" else "clash"
+      let fail :=
+        if !valid then none else
+        match parseArr? res with
+        | some r => firstFail [
+            if wfoB r n then none else some "result-not-a-valid-diagram",
+            if n > maxTT then none else
+              if (List.range (2 ^ n)).all fun i =>
+                let v := valOfIndex n i
+                let gv := evalArr g v
+                evalArr r v == evalArr f (fun y => if y = x then gv else v y)
+              then none else some "not-the-composition",
+            if (isCanon f || path != "unchanged") && !isCanon r then some "result-not-canonical" else none ]
+        | none => some ("outcome:" ++ res)
+      let extra :=
+        (if mentions g x && (List.range n).any (fun y => y != x && mentions g y && !mentions f y) then ["g-has-foreign-var"] else []) ++
+        (if isCanon f && isCanon g then [] else ["noncanonical-operand"])
+      { agree := model == res, model, fail,
+        nontrivial := valid && path != "unchanged" && g.size > 2,
+        tags := [path, s!"n{n}", if valid then "valid" else "invalid-input"] ++ extra }
+    | _, _, _ => Verdict.bad "args"
+  | _, _, _ => Verdict.bad ("key " ++ key)
 
 end B.Drive.C07
